@@ -73,7 +73,7 @@ def run_config(cfgname, schema, text, variables=None, operation_name=None):
     if cfgname == "pool":
         rt = ThreadPoolRuntime(max_workers=2)
         try:
-            return process_graphql_query(schema, text, runtime=rt, **kw).result(timeout=20)
+            return process_graphql_query(schema, text, runtime=rt, **kw).result(timeout=90)
         finally:
             rt._inner.shutdown()
     loop = asyncio.new_event_loop()
@@ -122,6 +122,10 @@ PREFIX_TEXTS = [
     "mutation M { hello }  subscription S { hello }",
     "{ \U0001F600 }",
     "extend type Query { z: Int }  { hello }",
+    # a raw line terminator inside a quoted string: the syntax error sits exactly ON the terminator (LF, CRLF, CR)
+    '{ echo(x: "ab\ncd") n }',
+    '{\n  echo(x: "ab\r\ncd")\n}',
+    '{ hello\r  echo(x: "ab\rcd") }',
 ]
 
 
